@@ -76,7 +76,27 @@ func runC14(c *core.Ctx) {
 			c.Violate("shape", "C14/shape/fu-train-interrupted", "%s arrives inside an FU train of %d fragments", next, fuFrags)
 		}
 	}
+	// option fields are plain exported fields: an application may flip them on a live payloader
+	toggling := mtu >= 6 && t.Chance(1, 4)
+	varyMTU := mtu < 2000 && t.Chance(1, 6)
+	sendDonl := donl
+	donlOf := map[int]bool{} // call index -> AddDONL at that call (lookup only)
 	streamWorld(c, ncalls, func(k int) [][]byte {
+		if toggling && k > 0 {
+			if t.Chance(1, 3) {
+				sendDonl = !sendDonl
+				pay.AddDONL = sendDonl
+				c.Probe("adddonl-toggled-on-live-payloader")
+			}
+			if t.Chance(1, 5) {
+				skipAgg = !skipAgg
+				pay.SkipAggregation = skipAgg
+			}
+		}
+		donlOf[k] = sendDonl
+		if varyMTU && k > 0 {
+			mtu = 6 + []int{8, 0, 1, 2, 4, 20, 40, 1194}[t.Intn(8)] + t.Intn(3) // the path MTU changed between calls
+		}
 		units := genH265Units(t, mtu)
 		for _, u := range units {
 			if len(u) == mtu-1 {
@@ -113,6 +133,10 @@ func runC14(c *core.Ctx) {
 		}
 		var err error
 		var head bool
+		if dd := donlOf[d.frame]; dd != donl {
+			donl = dd // the receiver follows the signalling: payloads of this call were built with this setting
+			rx.WithDONL(dd)
+		}
 		if c.Guard("codecs.H265Packet.Unmarshal", func() { _, err = rx.Unmarshal(buf); head = rx.IsPartitionHead(buf) }) {
 			return
 		}
